@@ -553,16 +553,12 @@ void NifFile::SortGraph(NiNode* root, SortState& sortState) {
 			}
 
 			if (isRootNode) {
-				// Reorder shapes on root node if order is provided
-				if (sortState.rootShapeOrder.size() == shapeIndices.size()) {
-					std::vector<uint32_t> newShapeIndices(shapeIndices.size());
-					for (size_t si = 0; si < sortState.rootShapeOrder.size(); si++) {
-						auto it = find(shapeIndices, sortState.rootShapeOrder[si]);
-						if (it != shapeIndices.end())
-							newShapeIndices[si] = shapeIndices[std::distance(shapeIndices.begin(), it)];
-					}
-					shapeIndices = newShapeIndices;
-				}
+				// Reorder shapes on root node if order is provided.
+				// The order is only used if it lists every shape of the node exactly once,
+				// otherwise children would be duplicated, dropped or replaced by block 0.
+				if (sortState.rootShapeOrder.size() == shapeIndices.size()
+					&& std::is_permutation(shapeIndices.begin(), shapeIndices.end(), sortState.rootShapeOrder.begin()))
+					shapeIndices = sortState.rootShapeOrder;
 			}
 
 			for (auto& index : shapeIndices) {
@@ -594,16 +590,12 @@ void NifFile::SortGraph(NiNode* root, SortState& sortState) {
 			}
 
 			if (isRootNode) {
-				// Reorder shapes on root node if order is provided
-				if (sortState.rootShapeOrder.size() == shapeIndices.size()) {
-					std::vector<uint32_t> newShapeIndices(shapeIndices.size());
-					for (size_t si = 0; si < sortState.rootShapeOrder.size(); si++) {
-						auto it = find(shapeIndices, sortState.rootShapeOrder[si]);
-						if (it != shapeIndices.end())
-							newShapeIndices[si] = shapeIndices[std::distance(shapeIndices.begin(), it)];
-					}
-					shapeIndices = newShapeIndices;
-				}
+				// Reorder shapes on root node if order is provided.
+				// The order is only used if it lists every shape of the node exactly once,
+				// otherwise children would be duplicated, dropped or replaced by block 0.
+				if (sortState.rootShapeOrder.size() == shapeIndices.size()
+					&& std::is_permutation(shapeIndices.begin(), shapeIndices.end(), sortState.rootShapeOrder.begin()))
+					shapeIndices = sortState.rootShapeOrder;
 			}
 
 			for (auto& index : shapeIndices) {
